@@ -2,10 +2,49 @@
 C16 — XMI ⇄ JSON conversion preserves the CAS, on the whole format (arrays and lists included).
 
 Composition of `xmi_roundtrip_coll` and `json_roundtrip_coll` on the common fragment of both formats
-(`CollFs ∧ JsonFs`, array objects carrying an element list): both conversion chains succeed and the CAS at the end has the
-same views, member ids, structures, ids, types and (deep) feature contents as the CAS written first.
+(`CollFs ∧ JsonFs`, array objects carrying an element list): the conversion chain succeeds and the CAS at the end has the
+same views, member ids, structures, ids, types and (deep) feature contents as the CAS written first.  The content is
+compared with `featContentC` (`Spec/RoundTripColl.lean`): an inlined collection is its sequence of elements, null and `""`
+coincide inside string arrays and lists (XMI identifies them; JSON keeps what the XMI reader made of them).
+
+Hypotheses: the union of those of the two round-trip theorems, stated for the CAS that is written first, `hsr` as in
+`chain_xmi_json_flat` (`Properties/C16Chain.lean`), and two more than in the statement as first given — each forced by a
+counterexample evaluated on the model (`Spec/ChainCollCheck.lean`, `#eval`; the tests are also checked by the kernel in
+`Proofs/ChainCollDemo.lean`):
+
+* `harr` — an array *object* has `elements ≠ None` ((J1) of `Spec/RoundTripJsonCollFrag.lean`, `ArrElemsSome`).  XMI
+  restores `None` for an array object of a non-string type written without `elements` attribute, the JSON writer omits
+  `%ELEMENTS`, the JSON reader makes `[]` of that.  Counterexample `ChainDemo.cx_obj_elements_none`: the demo CAS with
+  the shared IntegerArray (resp. FSArray) object holding `elements = None`; every other hypothesis holds, the chain
+  succeeds, and `featContentC` of the feature `elements` of that object is `.none` at the start, `.elems []` at the end.
+* `htys` — `CollTypesOk K ts` (`Spec/ChainCollFrag.lean`): the built-in array and list-node types are declared the way
+  `TypeSystem()` declares them.  The XMI reader makes the objects of *inlined* collections by type name; in the first CAS
+  they are not structures of their own, so no other hypothesis speaks about their types, and `K`, `ts` are arbitrary
+  records in the theorem.  Counterexample `ChainDemo.cx_missing_node_type`: the demo type system without
+  `uima.cas.NonEmptyIntegerList`; every other hypothesis holds, and `saveJson` on the loaded CAS raises
+  `TypeNotFoundError`.  (Not reachable in Python: a `TypeSystem` always contains the built-in types.)
+  `Json.builtin_types`, `Json.collDemo_types`: it holds for the generated constants with the built-in type system and
+  with the demo type system.
+
+The converse chain `chain_json_xmi_coll` (JSON → CAS → XMI → CAS) has the same shape, with one difference forced by the
+formats: the JSON writer collects *every* collection object as a structure of its own (`st.allFs`), the XMI writer does
+not collect the inlined ones, which therefore are not structures of the XMI document and get no id back.  The
+conclusion speaks about the structures the XMI writer collects from the CAS written first — `stx`, the traversal with
+the options of the XMI writer on the heap after the JSON writer's id assignment (`hx`; on the demo instance 11 of the 32
+structures).  Hypotheses: those of `json_roundtrip_coll` with the fragment `CollFs ∧ JsonFs ∧ ArrElemsSome` for every
+structure the JSON writer collects (inlined collection objects included: array objects and list nodes are structures of
+the XMI fragment), `NullOk`, and `hx`.  `CollTypesOk` is not needed (the JSON reader takes the types from the document).
+(J1) `harr` is needed here too (`ChainDemo.cxjx_obj_elements_none`, evaluated).
+
+Nothing is assumed about intermediate or final loader outputs.  As in the flat case (`Properties/C16Chain.lean`) the
+public round-trip theorems do not apply to the loaded CAS as they stand (`RTWf.ids_below` / `ids_pos` / `conv` fail for
+a loader's heap); in addition the JSON writer assigns fresh ids to the collection objects the XMI reader made for
+inlined collections, so the heap changes between loading and writing — handled inside the proof
+(`Proofs/ChainColl*.lean`, overview in `Proofs/ChainColl.lean`).
 -/
 import CassisModel.Proofs.ChainColl
+import CassisModel.Proofs.ChainCollJx
+import CassisModel.Proofs.ChainCollDemo
 
 namespace Cassis
 open Cassis.TS Cassis.Traverse Cassis.Xmi
@@ -22,7 +61,9 @@ theorem chain_xmi_json_coll (K : Consts) (ts : TypeSystem) (cass : List Cas) (ci
       f.range ≠ "uima.cas.Double" ∧ f.range ≠ "uima.cas.Float" ∧ isPrimitive K ts f.range = false)
     (hdis : ∀ q ∈ st.allFs, ∀ nv ∈ c.views, q.1 ≠ nv.2.sofa.xid)
     (hmem : ∀ nv ∈ c.views, ∀ e ∈ Index.all nv.2.idx, Xmi.slot st.heap e.oid "sofa" ≠ some .none)
-    (hmok : MembersOk c st.heap) :
+    (hmok : MembersOk c st.heap)
+    (harr : ∀ q ∈ st.allFs, Json.ArrElemsSome st.heap q.2)
+    (htys : Json.CollTypesOk K ts) :
     ∃ (ld1 : Xmi.Loaded) (docj : Json.JDoc) (st2 : St) (ld2 : Json.Loaded) (fss2 : List (Int × Val)),
       loadXmi K ts tsIdx cass.length false st.heap doc = .ok ld1 ∧
       Json.saveJson K ts (cass ++ [ld1.cas]) cass.length ld1.heap .none = .ok (docj, st2) ∧
@@ -32,6 +73,80 @@ theorem chain_xmi_json_coll (K : Consts) (ts : TypeSystem) (cass : List Cas) (ci
           st.heap[q.2]? = some o ∧ ld2.heap[a2]? = some o2 ∧ o2.ty = o.ty ∧ o2.xid = some q.1 ∧
           ∀ t : TypeRec, find? ts o.ty = some t → ∀ f ∈ allFeatures t,
             featContentC K ld2.heap a2 f = featContentC K st.heap q.2 f) :=
-  chain_xmi_json_coll_aux K ts cass ci c hp tsIdx doc st hc hwf hnull hsave hcoll hjson hsr hdis hmem hmok
+  chain_xmi_json_coll_aux K ts cass ci c hp tsIdx doc st hc hwf hnull hsave hcoll hjson hsr hdis hmem hmok harr htys
+
+/-- JSON → CAS → XMI → CAS -/
+theorem chain_json_xmi_coll (K : Consts) (ts : TypeSystem) (cass : List Cas) (ci : Nat) (c : Cas) (hp : Heap)
+    (tsIdx : Nat) (docj : Json.JDoc) (st stx : St)
+    (hc : cass[ci]? = some c) (hwf : RTWf c hp) (hnull : NullOk ts)
+    (hsave : Json.saveJson K ts cass ci hp .none = .ok (docj, st))
+    (hcoll : ∀ q ∈ st.allFs, CollFs K ts c ci st.heap q.2)
+    (hjson : ∀ q ∈ st.allFs, Json.JsonFs ts st.heap q.2)
+    (harr : ∀ q ∈ st.allFs, Json.ArrElemsSome st.heap q.2)
+    (hids : ∀ nv ∈ c.views, ∀ e ∈ Index.all nv.2.idx, (xidOf hp e.oid).isSome = true)
+    (hdis : ∀ q ∈ st.allFs, ∀ nv ∈ c.views, q.1 ≠ nv.2.sofa.xid)
+    (hmem : ∀ nv ∈ c.views, ∀ e ∈ Index.all nv.2.idx, Xmi.slot st.heap e.oid "sofa" ≠ some .none)
+    (hmok : MembersOk c st.heap)
+    (hx : findAllFs K ts {} st.heap c.nextXid (defaultSeeds c) = .ok stx) :
+    ∃ (ld1 : Json.Loaded) (docx : XDoc) (st2 : St) (p2 : Pass1) (ld2 : Xmi.Loaded),
+      Json.loadJson K ts tsIdx cass.length false false st.heap docj = .ok ld1 ∧
+      saveXmi K ts (cass ++ [ld1.cas]) cass.length ld1.heap = .ok (docx, st2) ∧
+      pass1 K ts tsIdx false docx { heap := st2.heap } = .ok p2 ∧
+      loadXmi K ts tsIdx (cass.length + 1) false st2.heap docx = .ok ld2 ∧
+      ld2.cas.views.map (viewContent ld2.heap) = c.views.map (viewContent st.heap) ∧
+      (∀ q ∈ stx.allFs, ∃ (a2 : Nat) (o o2 : Obj), lookupFs p2.fss q.1 = .ok a2 ∧
+          st.heap[q.2]? = some o ∧ ld2.heap[a2]? = some o2 ∧ o2.ty = o.ty ∧ o2.xid = some q.1 ∧
+          ∀ t : TypeRec, find? ts o.ty = some t → ∀ f ∈ allFeatures t,
+            featContentC K ld2.heap a2 f = featContentC K st.heap q.2 f) :=
+  chain_json_xmi_coll_aux K ts cass ci c hp tsIdx docj st stx hc hwf hnull hsave hcoll hjson harr hids hdis hmem hmok hx
+
+/-! ### Non-vacuity
+
+The instance `CollDemo` of `Spec/RoundTripCollCheck.lean` (type `x.Doc` with one feature per collection kind, inlined and
+shared, text `a😀b`, two structures referring to each other, one of them indexed): every hypothesis of the theorem holds
+(`Json.chainCollDemo_applies`, checked by the kernel, and `Json.chainCollAppliesB_hyps`), so the theorem applies. -/
+
+/-- `chain_xmi_json_coll` applied to the instance -/
+example : ∃ (doc : XDoc) (st : St) (ld1 : Xmi.Loaded) (docj : Json.JDoc) (st2 : St) (ld2 : Json.Loaded),
+    saveXmi CollDemo.K CollDemo.ts [CollDemo.cas] 0 CollDemo.hp = .ok (doc, st) ∧
+    loadXmi CollDemo.K CollDemo.ts 0 1 false st.heap doc = .ok ld1 ∧
+    Json.saveJson CollDemo.K CollDemo.ts ([CollDemo.cas] ++ [ld1.cas]) 1 ld1.heap .none = .ok (docj, st2) ∧
+    Json.loadJson CollDemo.K CollDemo.ts 0 2 false false st2.heap docj = .ok ld2 ∧
+    ld2.cas.views.map (viewContent ld2.heap) = CollDemo.cas.views.map (viewContent st.heap) := by
+  obtain ⟨c, doc, st, hc, hs, hwf, hn, hf, hj, hsr, hd, hm, hmo, ha, ht⟩ :=
+    Json.chainCollAppliesB_hyps _ _ _ _ _ Json.chainCollDemo_applies
+  have hcc : c = CollDemo.cas := by
+    have : [CollDemo.cas][0]? = some CollDemo.cas := rfl
+    rw [this] at hc
+    exact (Option.some.inj hc).symm
+  subst hcc
+  obtain ⟨ld1, docj, st2, ld2, _, h1, h2, h3, h4, _⟩ :=
+    chain_xmi_json_coll CollDemo.K CollDemo.ts [CollDemo.cas] 0 CollDemo.cas CollDemo.hp 0 doc st
+      hc hwf hn hs hf hj hsr hd hm hmo ha ht
+  exact ⟨doc, st, ld1, docj, st2, ld2, hs, h1, h2, h3, h4⟩
+
+/-- `chain_json_xmi_coll` applied to the instance (`Json.chainJXDemo_applies`, checked by the kernel) -/
+example : ∃ (docj : Json.JDoc) (st : St) (ld1 : Json.Loaded) (docx : XDoc) (st2 : St) (ld2 : Xmi.Loaded),
+    Json.saveJson CollDemo.K CollDemo.ts [CollDemo.cas] 0 CollDemo.hp .none = .ok (docj, st) ∧
+    Json.loadJson CollDemo.K CollDemo.ts 0 1 false false st.heap docj = .ok ld1 ∧
+    saveXmi CollDemo.K CollDemo.ts ([CollDemo.cas] ++ [ld1.cas]) 1 ld1.heap = .ok (docx, st2) ∧
+    loadXmi CollDemo.K CollDemo.ts 0 2 false st2.heap docx = .ok ld2 ∧
+    ld2.cas.views.map (viewContent ld2.heap) = CollDemo.cas.views.map (viewContent st.heap) := by
+  obtain ⟨c, docj, st, stx, hc, hs, hx, hwf, hn, hf, hj, ha, hi, hd, hm, hmo⟩ :=
+    Json.chainJXAppliesB_hyps _ _ _ _ _ Json.chainJXDemo_applies
+  have hcc : c = CollDemo.cas := by
+    have : [CollDemo.cas][0]? = some CollDemo.cas := rfl
+    rw [this] at hc
+    exact (Option.some.inj hc).symm
+  subst hcc
+  obtain ⟨ld1, docx, st2, _, ld2, h1, h2, _, h3, h4, _⟩ :=
+    chain_json_xmi_coll CollDemo.K CollDemo.ts [CollDemo.cas] 0 CollDemo.cas CollDemo.hp 0 docj st stx
+      hc hwf hn hs hf hj ha hi hd hm hmo hx
+  exact ⟨docj, st, ld1, docx, st2, ld2, hs, h1, h2, h3, h4⟩
+
+#print axioms chain_xmi_json_coll
+#print axioms chain_json_xmi_coll
+#print axioms Json.collTypesOkB_sound
+#print axioms Json.chainCollAppliesB_hyps
 
 end Cassis
